@@ -161,7 +161,7 @@ def generate(run_seed, tier):
             "zmq_ids": rf_.random() < 0.7, "raw_cap": rf_.choice([1, 2, 8, 64]), "ac_cap": rf_.choice([1, 2, 8]),
             "stalls": stalls, "tape": tape, "cpu_us": rs.choice([0, 1, 50]), "quantum_us": quantum,
             "receiver": wd["receiver"], "aircraft": wd["aircraft"], "case": rw.choice(["lower", "mixed"]), "T": T,
-            "disk": _gen_disk(rf_), "group": fmt}
+            "disk": _gen_disk(rf_), "coalesce": rf_.random() < 0.5, "group": fmt}
 
 
 def _gen_disk(rf_):
@@ -198,10 +198,13 @@ class DecObserver(object):
         self.last_table = None
         self.last_stamp = None
         self.premise_ok = True
+        self.on_violation = None
 
     def add(self, clause, detail):
         if len(self.vio) < 4:
             self.vio.append({"clause": clause, "detail": detail})
+        if self.on_violation is not None:
+            self.on_violation()   # no point in simulating on: end the run
 
     def on_exit(self, inst, call, raised):
         ci = len(self.calls)
@@ -315,6 +318,7 @@ def execute(sc, keep_log=False):
         dl = [[d[0] + k.now_us, d[1]] for d in dl]
     c16 = r1b.Oracle(st)
     net = r1b.Net(k, sc.get("zmq_ids", True), c16)
+    net.coalesce = bool(sc.get("coalesce", False))
     fz = FakeZmqModule(k, net)
     ft = FakeTime(k)
     tc.zmq = fz
@@ -327,6 +331,8 @@ def execute(sc, keep_log=False):
     sent_batches = []
     raw_pipe.tap = lambda blob: sent_batches.append(pickle.loads(blob))
     obs = DecObserver(sc, dec, stats)
+    obs.on_violation = lambda: k._begin_stop("violation")
+    c16.on_violation = lambda: k._begin_stop("violation")
 
     class ObsSource(src.NetSource):
         def handle_messages(self_, messages):
